@@ -216,18 +216,19 @@ func TestManageLoop(t *testing.T) {
 					admitted = false
 				}
 				if admitted {
+					w.p2pUp(p) // libp2p registers the connection before it tells the topology
 					err := k.Connected(context.Background(), kadrig.Peer(p.addr, mode(p)), force)
 					if errors.Is(err, topology.ErrOversaturated) {
 						admitted = false
-						k.Disconnected(kadrig.Peer(p.addr, mode(p)), "unable to signal connection notifier")
+						if w.isLive(p) {
+							w.p2pDown(p)
+							k.Disconnected(kadrig.Peer(p.addr, mode(p)), "unable to signal connection notifier")
+						}
 					} else if err != nil {
 						t.Fatalf("harness: Connected: %v", err)
 					}
 				}
 				if admitted {
-					w.mu.Lock()
-					w.live[p.idx] = true
-					w.mu.Unlock()
 					p.last = "inbound"
 					if rng.Intn(10) < 8 {
 						k.Reachable(boson.NewAddress(p.addr), p2p.ReachabilityStatusPublic)
